@@ -17,19 +17,25 @@ theorem validatePart_clean (b v : Bytes) (h : validatePartBytes b = .ok v) : has
   · cases h
   · rename_i hc; cases h; simpa using hc
 
-theorem validateName_clean (n : HV) (v : Bytes) (h : validateName n = .ok v) : hasCtl v = false := by
+theorem validateName_ok (n : HV) (v : Bytes) (h : validateName n = .ok v) :
+    ∃ b, n = .bytes b ∧ validatePartBytes b = .ok v ∧ nameRefused v = false := by
   cases n with
   | bytes b =>
-    cases b with
-    | nil => simp [validateName] at h
-    | cons c t =>
-      simp only [validateName] at h
+    simp only [validateName] at h
+    cases hp : validatePartBytes b with
+    | error e => simp [hp] at h
+    | ok m =>
+      simp only [hp] at h
       split at h
       · cases h
-      · exact validatePart_clean _ _ h
-  | str s => simp only [validateName] at h; split at h <;> cases h
+      · rename_i hr; cases h; exact ⟨b, rfl, hp, by simpa using hr⟩
+  | str s => cases h
   | int n => cases h
   | none => cases h
+
+theorem validateName_clean (n : HV) (v : Bytes) (h : validateName n = .ok v) : hasCtl v = false := by
+  obtain ⟨b, _, hp, _⟩ := validateName_ok n v h
+  exact validatePart_clean _ _ hp
 
 theorem validateValue_clean (x : HV) (v : Bytes) (h : validateValue x = .ok v) : hasCtl v = false := by
   cases x with
@@ -70,13 +76,47 @@ theorem no_ctl_in_headers : ∀ (hs : List (HV × HV)) (vh : Headers), validateH
           · exact ⟨validateName_clean _ _ hn, validateValue_clean _ _ hv⟩
           · exact ih r hr x hx
 
-theorem pseudo_header_rejected (t : Bytes) (v : HV) (rest : List (HV × HV)) :
-    validateHeaders ((.bytes (58 :: t), v) :: rest) = .error .valueError := by
-  simp [validateHeaders, validateName, bind, Except.bind]
+/-- a validated header list never contains an empty name or a pseudo header (a name starting with `:`): the test is
+    made on the name as it is sent, i.e. after stripping -/
+def noPseudo (hs : Headers) : Prop := ∀ h ∈ hs, nameRefused h.1 = false
+
+theorem no_pseudo_in_headers : ∀ (hs : List (HV × HV)) (vh : Headers), validateHeaders hs = .ok vh → noPseudo vh := by
+  intro hs
+  induction hs with
+  | nil => intro vh h; simp [validateHeaders] at h; cases h; intro x hx; cases hx
+  | cons p rest ih =>
+    intro vh h
+    obtain ⟨n, v⟩ := p
+    simp only [validateHeaders] at h
+    cases hn : validateName n with
+    | error e => simp [hn, bind, Except.bind] at h
+    | ok n' =>
+      cases hv : validateValue v with
+      | error e => simp [hn, hv, bind, Except.bind] at h
+      | ok v' =>
+        cases hr : validateHeaders rest with
+        | error e => simp [hn, hv, hr, bind, Except.bind] at h
+        | ok r =>
+          simp [hn, hv, hr, bind, Except.bind, pure, Except.pure] at h
+          cases h
+          intro x hx
+          rcases List.mem_cons.mp hx with rfl | hx
+          · obtain ⟨_, _, _, hr'⟩ := validateName_ok _ _ hn; exact hr'
+          · exact ih r hr x hx
+
+/-- whatever whitespace hides it: a name whose stripped form starts with `:` (or is empty) makes the list invalid -/
+theorem pseudo_header_rejected (b : Bytes) (v : HV) (rest : List (HV × HV)) (h : nameRefused (Bytes.strip b) = true) :
+    ∃ e, validateHeaders ((.bytes b, v) :: rest) = .error e := by
+  simp only [validateHeaders, validateName, validatePartBytes, bind, Except.bind]
+  by_cases hc : hasCtl (Bytes.strip b) = true <;> simp [hc, h]
+
+example : validateHeaders [(.bytes " :status".b, .bytes "200".b)] = .error .valueError := by rfl
+example : validateHeaders [(.bytes "  ".b, .bytes "v".b)] = .error .valueError := by rfl
+example : validateHeaders [(.bytes ":authority".b, .bytes "x".b)] = .error .valueError := by rfl
 
 theorem str_name_rejected (s : String) (v : HV) (rest : List (HV × HV)) :
     ∃ e, validateHeaders ((.str s, v) :: rest) = .error e := by
-  by_cases hs : s = "" <;> simp [validateHeaders, validateName, hs, bind, Except.bind]
+  simp [validateHeaders, validateName, bind, Except.bind]
 
 theorem str_value_rejected (n : HV) (s : String) (rest : List (HV × HV)) :
     ∃ e, validateHeaders ((n, .str s) :: rest) = .error e := by
@@ -464,47 +504,63 @@ theorem ws_reject_is_noop (token : Bytes → Bytes) (ext : Option Bytes) (s : Ws
       (repeat' split at he) <;> simp_all <;> (repeat' split) <;> simp_all
     | other => simp only [Ws.appSend, Ws.sendWs, hcl] at he ⊢; (repeat' split at he) <;> simp_all
 
-private theorem validateExtra_clean : ∀ (l r : Headers), Ws.validateExtra l = .ok r → r.length = l.length ∧ cleanHeaders r := by
+private theorem validateExtra_clean : ∀ (l r : Headers), Ws.validateExtra l = .ok r →
+    r.length = l.length ∧ cleanHeaders r ∧ noPseudo r ∧ ∀ h ∈ r, h.1 ≠ "sec-websocket-protocol".b := by
   intro l
   induction l with
-  | nil => intro r hr; simp [Ws.validateExtra] at hr; cases hr; exact ⟨rfl, fun x hx => by cases hx⟩
+  | nil =>
+    intro r hr; simp [Ws.validateExtra] at hr; cases hr
+    refine ⟨rfl, ?_, ?_, ?_⟩ <;> (intro x hx; cases hx)
   | cons a t ih =>
     intro r hr
     simp only [Ws.validateExtra] at hr
-    split at hr
-    · cases hr
-    · simp only [bind, Except.bind] at hr
-      cases hn : validatePartBytes a.1 with
-      | error e => simp [hn] at hr
-      | ok n =>
+    cases hn : validatePartBytes a.1 with
+    | error e => simp [hn] at hr
+    | ok n =>
+      simp only [hn] at hr
+      split at hr
+      · cases hr
+      · rename_i hnr
+        simp only [bind, Except.bind] at hr
         cases hv : validatePartBytes a.2 with
-        | error e => simp [hn, hv] at hr
+        | error e => simp [hv] at hr
         | ok v =>
           cases ht : Ws.validateExtra t with
-          | error e => simp [hn, hv, ht] at hr
+          | error e => simp [hv, ht] at hr
           | ok t' =>
-            simp [hn, hv, ht, pure, Except.pure] at hr
+            simp [hv, ht, pure, Except.pure] at hr
             subst hr
-            obtain ⟨hl, hc⟩ := ih t' ht
-            refine ⟨by simp [hl], ?_⟩
-            intro x hx
-            rcases List.mem_cons.mp hx with rfl | hx
-            · exact ⟨validatePart_clean _ _ hn, validatePart_clean _ _ hv⟩
-            · exact hc x hx
+            obtain ⟨hl, hc, hp, hs⟩ := ih t' ht
+            simp only [Bool.or_eq_true, beq_iff_eq, not_or] at hnr
+            refine ⟨by simp [hl], ?_, ?_, ?_⟩
+            · intro x hx
+              rcases List.mem_cons.mp hx with rfl | hx
+              · exact ⟨validatePart_clean _ _ hn, validatePart_clean _ _ hv⟩
+              · exact hc x hx
+            · intro x hx
+              rcases List.mem_cons.mp hx with rfl | hx
+              · simpa using hnr.2
+              · exact hp x hx
+            · intro x hx
+              rcases List.mem_cons.mp hx with rfl | hx
+              · exact hnr.1
+              · exact hs x hx
 
 /-- the extra headers an application passes to `websocket.accept` are rendered (after the server's own handshake
-    headers) free of CR / LF / NUL, or the accept is refused -/
+    headers) free of CR / LF / NUL, none of them is empty, a pseudo header or a second `sec-websocket-protocol` (judged on
+    the name as it is sent, i.e. stripped) - or the accept is refused -/
 theorem ws_accept_extra_clean (h : Ws.Handshake) (token : Bytes → Bytes) (ext : Option Bytes) (sp : Option Bytes)
     (extra : Headers) (st : Nat) (hs : Headers) (hok : h.accept token ext sp extra = .ok (st, hs)) :
-    ∃ pre suf, hs = pre ++ suf ∧ suf.length = extra.length ∧ cleanHeaders suf := by
+    ∃ pre suf, hs = pre ++ suf ∧ suf.length = extra.length ∧ cleanHeaders suf ∧ noPseudo suf ∧
+      ∀ x ∈ suf, x.1 ≠ "sec-websocket-protocol".b := by
   unfold Ws.Handshake.accept at hok
   simp only [bind, Except.bind] at hok
   cases hx : Ws.validateExtra extra with
   | error e => simp [hx] at hok; (repeat' split at hok) <;> simp_all
   | ok h5 =>
-    obtain ⟨hl, hc⟩ := validateExtra_clean extra h5 hx
+    obtain ⟨hl, hc, hp, hs'⟩ := validateExtra_clean extra h5 hx
     simp only [hx, pure, Except.pure] at hok
-    (repeat' split at hok) <;> (try cases hok) <;> exact ⟨_, h5, rfl, hl, hc⟩
+    (repeat' split at hok) <;> (try cases hok) <;> exact ⟨_, h5, rfl, hl, hc, hp, hs'⟩
 
 /-- non-vacuity: a concrete HTTP/2 state in which a late push, a second start and a body with a `str` payload are all
     rejected without effect, and a CR/LF header is refused before anything is emitted -/
